@@ -69,8 +69,10 @@ def gen(seed, run, sub="files", tier="quick"):
             ops.append(["add", r.randrange(len(writers))])
         elif u < 0.72:
             ops.append(["remove", r.randrange(len(writers))])
-        elif u < 0.735:
+        elif u < 0.728:
             ops.append(["set_le", r.choice(["os", "\\n", "\\r\\n", "\\r"])])
+        elif u < 0.735:
+            ops.append(["set_formatter", r.choice(["os", "\\n", "\\r\\n", "\\r"])])
         elif u < 0.75:
             ops.append(["wdisc", r.randrange(len(writers))])
         elif u < 0.82:
@@ -439,6 +441,13 @@ def execute(scn, guide=None, keep=False):
                 elif kind == "set_le":
                     # the application changes the line ending of the live formatter
                     g.format.set_line_endings(op[1])
+                    cur["eol"] = os.linesep if op[1] == "os" else op[1].encode().decode("unicode-escape")
+                elif kind == "set_formatter":
+                    # the application installs another formatter object
+                    from gscrib.formatters import DefaultFormatter as _DF
+                    f_ = _DF()
+                    f_.set_line_endings(op[1])
+                    g.set_formatter(f_)
                     cur["eol"] = os.linesep if op[1] == "os" else op[1].encode().decode("unicode-escape")
                 elif kind == "wdisc":
                     # the application disconnects one writer itself (FileWriter reopens lazily)
